@@ -299,6 +299,13 @@ def named_inputs():
     disj['2xK33'] = _block(ng['K33'], ng['K33'])
     disj['K4+C6'] = _block(ng['K4'], ng['C6'])
     disj['3xK2'] = _block(*[np.array([[0., 1.], [1., 0.]])] * 3)
+    # components of different size in both orders, and an isolated node first: the leading eigenvector is then zero on whole
+    # components (in particular at node 0), which a sign convention based on one entry does not survive
+    K2 = np.array([[0., 1.], [1., 0.]])
+    disj['K2+K3'] = _block(K2, ng['C3'])
+    disj['K3+K2'] = _block(ng['C3'], K2)
+    disj['K1+K3'] = _block(np.zeros((1, 1)), ng['C3'])
+    disj['C4+K4'] = _block(ng['C4'], ng['K4'])
     return conn, disj
 
 
@@ -322,7 +329,11 @@ def worker_named(task):
             ident = ('disjoint', name, tag)
             check_findwalks(acc, M, ident)
             check_subgraph(acc, M, ident)
-            check_pagerank(acc, M, ident, _fs(n, False))
+            if np.all(M.sum(axis=0) > 0):          # PageRank is specified for networks without dangling nodes
+                check_pagerank(acc, M, ident, _fs(n, False))
+            # (for a disconnected graph |v| of any eigenvector of lambda_max is again one: on every component v is a multiple of
+            # that component's Perron vector or zero)
+            check_eigenvector(acc, M, ident)
     return acc
 
 
